@@ -64,6 +64,14 @@ def generate(rng, tier, index, backends):
             if rng.random() < 0.4:
                 twin_sel["columns"] = select.gen_index(rng, p)
             sels.insert(pos + k_f, twin_sel)
+    # zooming out: a window, then wider windows that contain it (same or neighbouring groups)
+    if n >= 4 and rng.random() < 0.5:
+        a = rng.randrange(1, n - 1)
+        b = min(a + rng.randint(1, 3), n)
+        pos = rng.randrange(len(sels) + 1)
+        for k_z in range(3):
+            lo, hi = max(a - k_z * rng.randint(1, 2), 0), min(b + k_z * rng.randint(1, 3), n)
+            sels.insert(pos + k_z, {"kind": "isel", "rows": {"slice": [lo, hi, None]}})
     scan = []
     if n >= 3 and rng.random() < 0.6:
         # sequential reading: 3-6 consecutive loads, each starting right after the previous one
